@@ -774,5 +774,20 @@ func (e StdEng) checkThreeFloatComplexTensors(a, b, ret Tensor) (ad, bd, retVal 
 	if retVal, err = getFloatComplexDenseTensor(ret); err != nil {
 		return nil, nil, nil, errors.Wrap(err, "checkTwoTensors expects retVal to be be a DenseTensor")
 	}
+	// the BLAS routines clear and write retVal while they are still reading the operands
+	if sharesWindow(retVal, ad) || sharesWindow(retVal, bd) {
+		return nil, nil, nil, errors.New("Expected retVal not to share its storage with a or b")
+	}
 	return
+}
+
+// sharesWindow reports whether the storage windows of a and b have bytes in common
+func sharesWindow(a, b DenseTensor) bool {
+	aarr, barr := a.arr(), b.arr()
+	ra, rb := aarr.Header.Raw, barr.Header.Raw
+	if len(ra) == 0 || len(rb) == 0 {
+		return false
+	}
+	pa, pb := aarr.Uintptr(), barr.Uintptr()
+	return pa < pb+uintptr(len(rb)) && pb < pa+uintptr(len(ra))
 }
